@@ -17,7 +17,7 @@ def generate(ck, prop, tier, seed):
     rnd = random.Random(seed)
     # seeded subset of kinds for multi-field shapes: exhaustive within the subset
     scal = [k for k in ALL_KINDS if not k.startswith("m")]
-    sub = sorted(rnd.sample(scal, 3 if not thorough else 4) + rnd.sample(["m1", "m2", "m3", "m4"], 1 if not thorough else 2))
+    sub = sorted(rnd.sample(scal, 3 if not thorough else 6) + rnd.sample(["m1", "m2", "m3", "m4"], 1 if not thorough else 2))
     mc2 = vlib.must_hold(vlib.tlc("ProtoCodec", "MC_ProtoCodec.cfg", workers=vlib.NCPU, tag="ProtoCodec-mc2",
                                   defines={"MaxFields": 2, "GenKinds": tla_set(sub), "MaxId": 1,
                                            "TagNumbers": "{0, 16}"}, timeout=3000),
@@ -29,10 +29,11 @@ def generate(ck, prop, tier, seed):
         ck.add_mc(g1, "Gen_ProtoCodec(1 field, all kinds)")
         ck.notes["first_part"] = g1.vectors
         g2 = vlib.must_hold(vlib.tlc("ProtoCodec", "Gen_ProtoCodec.cfg", workers=vlib.NCPU, sink=sink, tag="ProtoCodec-gen2",
-                                     defines={"MaxFields": 3 if thorough else 2, "GenKinds": tla_set(sub), "MaxId": 1,
+                                     # (three fields: 1.6 M shapes x values already for 3 kinds - measured; two fields over more kinds instead)
+                                     defines={"MaxFields": 2, "GenKinds": tla_set(sub), "MaxId": 1,
                                               "TagNumbers": "{0, 16}"}, timeout=3000),
                             "generation (multi-field)")
-        ck.add_mc(g2, "Gen_ProtoCodec(%d fields, kinds %s)" % (3 if thorough else 2, ",".join(sub)))
+        ck.add_mc(g2, "Gen_ProtoCodec(2 fields, kinds %s)" % ",".join(sub))
     if g1.vectors + g2.vectors == 0:
         raise vlib.Infra("no vectors")
     ck.notes["kinds_subset"] = sub
